@@ -1087,6 +1087,12 @@ def _run_field(case):
 
     U = field("U", min(1, nPe - 1))
     W = field("W", 0)
+    # the finite element array a Field evaluates to belongs to the caller: an in-place edit of it (w *= rho inside an integrand) must
+    # not reach any later use of the same Field (every term below is evaluated after this edit)
+    for F_ in (U, W):
+        w_ = F_.obj()
+        w_ *= 3.0
+        w_ += 1.0
     L = {"U": U, "W": W}
     for nm, sig, shp in (("F0", "F0", (Ne, nPg)), ("F1", "F1", (Ne, nPg, 1)), ("F1d", "F1", (Ne, nPg, dim)),
                          ("F2", "F2", (Ne, nPg, 1, 1)), ("F2d", "F2", (Ne, nPg, dim, dim)), ("F0c", "F0c", (1, 1)), ("F1p", "F1p", (1, nPg, 1))):
